@@ -17,8 +17,19 @@ func C17_upgrader_results() {
 	for _, c := range par {
 		vAssume(vIn(c, '0', '9'))
 	}
-	req := []byte("GET /x HTTP/1.1\r\nHost: h\r\nUpgrade: websocket\r\nConnection: Upgrade\r\nSec-WebSocket-Version: 13\r\nSec-WebSocket-Key: dGhlIHNhbXBsZSBub25jZQ==\r\nSec-WebSocket-Protocol: x, ")
-	req = append(req, tok...)
+	req := []byte("GET /x HTTP/1.1\r\nHost: h\r\nUpgrade: websocket\r\nConnection: Upgrade\r\nSec-WebSocket-Version: 13\r\nSec-WebSocket-Key: dGhlIHNhbXBsZSBub25jZQ==\r\nSec-WebSocket-Protocol: ")
+	// the accepted subprotocol is the second of two, the first of two, or the only one offered
+	// (a selector may take a shortcut when the token is the whole header value)
+	switch vChoose("offer", 3) {
+	case 0:
+		req = append(req, "x, "...)
+		req = append(req, tok...)
+	case 1:
+		req = append(req, tok...)
+		req = append(req, " ,y"...)
+	case 2:
+		req = append(req, tok...)
+	}
 	req = append(req, "\r\nSec-WebSocket-Extensions: ext-a; p="...)
 	req = append(req, par...)
 	req = append(req, ", ext-b\r\n\r\n"...)
